@@ -16,52 +16,74 @@ def oracles_():
 
 
 TRUSTED = [
-    "impl/t_own.c (ownership oracle driver: what it checks after each API call and at the end of a case) and "
-    "AddressSanitizer / LeakSanitizer of clang (heap errors and leaks are only as visible as these tools make them)",
+    "impl/t_ht.c (state dump of struct ly_ht through hash_table_internal.h; a call that does not return within 0.5 s is reported as "
+    "the model's loop-fuel answer) and ocaml/run_ht.ml (script parsing; for own-delta the mapping command name -> kind of model operation)",
+    "impl/t_own.c (ownership oracle driver: what it checks after each API call and at the end of a case, its allocation tracker, "
+    "the call shapes it refuses as API misuse) and AddressSanitizer / LeakSanitizer of clang (heap errors and leaks are only as "
+    "visible as these tools make them)",
 ]
 
 ASSUMPTIONS = [
     "malloc/calloc succeed (LY_EMEM paths are not modelled)",
-    "at most 3 * 2^26 operations on one table (keeps ht->size << 1 inside uint32_t)",
+    "sequence theorems: table created by lyht_new(2^k), k <= 26, at most 3 * 2^26 operations (keeps ht->size << 1 inside uint32_t); "
+    "lyht_insert alone: size <= 2^30",
+    "the value-equality callback is modelled as one relation for both 'mod' settings; for the dictionary it is string equality (the "
+    "pointer comparisons of lydict_dup / of the resize callback are string equality on strings the dictionary handed out)",
     "single thread (the dictionary lock is not modelled)",
-    "dictionary strings contain no NUL and each reference count stays below 2^32",
+    "dictionary strings contain no NUL and each reference count stays below 2^32 (implied by the length bound)",
 ]
 
 MANIFEST = {
-    "text": "PARTIAL. Proved in Coq on models that follow src/hash_table.c and src/dict.c statement by statement: (1) the record "
-            "arena of the hash table - representation invariant Rep (bucket chains + free list are duplicate free and partition "
-            "the record indices 0..size-1, every chained record lies in the bucket of its hash, hlists[].last is the chain end, "
-            "used = number of chained records, size = 2^k >= 8) is preserved by lyht_insert / lyht_insert_no_check / lyht_remove "
-            "/ the enlarging and shrinking lyht_resize / in-place value updates, every operation (incl. lyht_find, lyht_find_next, "
-            "lyht_find_next_with_collision_cb) returns what the functional version on the abstraction (per-bucket lists in chain "
-            "order) returns, no access leaves the arrays, the loops terminate, and with resizing enabled the assertion "
-            "first_free_rec < size follows from the load-factor invariant; lifted to all operation sequences from lyht_new "
-            "(C17_ht_run_refines, C17_ht_run_free_rec, C17_ht_checked_run_total: 'no record slot is lost or used twice' in every "
-            "reachable state). (2) the dictionary - for every sequence of lydict_insert / lydict_insert_zc / lydict_remove / "
-            "lydict_dup, incl. removes of strings that are not held, the table stores exactly the finite map string -> "
-            "(#acquired - #released) restricted to positive counts; after releasing every reference used = 0; a surplus "
-            "lydict_remove answers LY_ENOTFOUND and changes nothing (C17_dict_refs_balance, C17_dict_counts, "
-            "C17_dict_release_all_empty, C17_dict_remove_not_held). lyht_dup keeps the invariant and the content (C17_ht_dup_preserves_rep) and the load percentage is exact "
-            "(C17_ht_pct_exact); both were refuted before the fixes d69e9c2 / be54a69. Tie: T2 on the "
-            "public lyht_* / lydict_* API - the extracted models and the C functions run the same operation scripts and are "
-            "compared on every return value AND on the complete internal state (size, used, resize, first_free_rec, every "
-            "hlists[] entry, every chain with arena indices, the free list, reference counts).",
-    "note": "NOT proved: heap behaviour of the rest of the library. Ownership of data-tree / schema / context memory (consumed "
-            "inputs, outputs NULL on failure, subtree freeing, dictionary empty at ly_ctx_destroy) is only SEARCHED: the Ownership "
-            "oracle runs random sequences of API calls including failing ones under AddressSanitizer + LeakSanitizer and compares "
-            "the context's dictionary size before/after and counts 'not freed' warnings. A small ownership model (Own.v / "
-            "Properties_C17_own.v) states the rules the oracle checks - balance of store / dup / free / temporaries over the "
-            "dictionary finite map (C17_own_balance), exactness of free_single / free_siblings on chains, one reference per owned "
-            "string for a duplicate, neutral temporaries, with the seeded defect classes as refuted variants - and predicts the "
-            "dictionary delta 0 for every projected API script (C17_own_script_delta_zero, compared with the library by the T2 "
-            "component own-delta on the fixed catalogue scripts); which strings a given libyang call owns is NOT modelled. "
-            "Oracle-level only: the "
-            "catalogue of calls that allocate-and-release temporaries (lyd_value_validate with/without context node for every type "
-            "family - valid, invalid when stored, invalid when resolved -, lyd_value_compare, lyd_change_term/_canon/_bin, "
-            "lyd_dup_meta_single, lyd_any_value_str, lyd_any_copy_value, merge / diff callbacks failing at every position) and of "
-            "calls that unlink-and-free one element of a chain (lyd_free_meta_single/_siblings, lyd_free_attr_single/_siblings, "
-            "unlink/free of siblings at every position of chains of 1..4: exactly the other elements must remain, in order). "
-            "A leak on a path the generator does not reach stays unseen. Allocation failure, threads and strings with embedded NUL are out of the model.",
+    "text": "PARTIAL. Proved in Coq on models transcribed from src/hash_table.c and src/dict.c branch by branch (arrays as lists, "
+            "uint32_t arithmetic explicit, a failing assert = error E_ABORT). (1) Hash table, for any value type and callback: "
+            "under the representation invariant Rep (bucket chains + free list are duplicate free and partition the record "
+            "indices 0..size-1, each chained record lies in the bucket of its hash, hlists[].last is the chain end, used = number "
+            "of chained records, size = 2^k >= 8) every operation returns what its functional version on the abstraction "
+            "(per-bucket lists in chain order) returns, preserves Rep, never leaves the arrays and its loops terminate: "
+            "C17_ht_find_refines, C17_ht_find_next_refines (incl. the collision callback), C17_ht_insert_refines (checked and "
+            "no_check, incl. the enlarging resize; size <= 2^30), C17_ht_remove_refines (incl. shrinking), C17_ht_resize_refines, "
+            "C17_ht_set_val_refines, C17_ht_dup_preserves_rep; Rep gives C17_ht_no_slot_lost_or_reused; the load-factor invariant "
+            "gives first_free_rec < size (C17_ht_free_list_nonempty); C17_ht_pct_exact (64-bit load percentage). For the instance "
+            "the driver runs (integer values, equality callback) and every script of insert / insert_no_check / remove / find / "
+            "find_next / dup from lyht_new(2^k, resize 0|1), k <= 26, <= 3*2^26 operations: results equal the abstract run, every "
+            "reachable state satisfies Rep, the only possible stop is a C assert (C17_ht_run_refines: table full with resize 0, or "
+            "a checked re-insertion meeting a duplicate stored by insert_no_check); with resize 1 the free list is never empty "
+            "(C17_ht_run_free_rec) and scripts without insert_no_check never stop (C17_ht_checked_run_total). (2) Dictionary, from "
+            "an empty dictionary of 2^k records (lydict_init: k = 10), same length bound: every script of lydict_insert / _insert_zc "
+            "/ _remove / _dup, incl. calls on strings that are not held, runs to completion, answers as the finite map string -> "
+            "count does and the table stores exactly that map restricted to positive counts (C17_dict_refs_balance); count = "
+            "acquired - released when every remove/dup targets a held string (C17_dict_counts); all released => used = 0 "
+            "(C17_dict_release_all_empty); a surplus remove answers LY_ENOTFOUND and changes nothing (C17_dict_remove_not_held). "
+            "(3) Ownership rules over that finite map (Own.v, an abstract model, NOT a transcription of C): store/dup/free/"
+            "failed-validation sequences never release a string that is not held and end at the initial dictionary once every "
+            "value is freed (C17_own_balance); free_single k / free_siblings k on a chain keep exactly the other / the first k "
+            "elements in order and release exactly the freed elements' references (C17_own_free_single_exact, "
+            "C17_own_free_siblings_exact); a duplicate takes one reference per owned string (C17_own_dup_takes_refs); a stored "
+            "value whose validation fails is neutral (C17_own_temp_neutral); C17_own_dict_is_DictP, C17_own_script_delta_zero. "
+            "Former defects are kept as regression Examples (C17_ht_dup_regression, C17_ht_pct_former_witness: fixed in d69e9c2 / "
+            "be54a69; C17_own_*_refuted: the seeded defect classes as wrong variants of the model operations). Tie (T2): the "
+            "extracted models and the C functions run the same scripts on the public lyht_* / lydict_* API and are compared on "
+            "every return value AND the complete internal state (size, used, resize, first_free_rec, every hlists[] entry, every "
+            "chain with arena indices, the free list, reference counts); own-delta compares the end-of-case dictionary accounting "
+            "of the fixed API catalogue scripts with the model's prediction, which is 0 for every script by theorem.",
+    "note": "NOT proved: heap behaviour of the rest of the library; which strings / blocks a given libyang call owns is not modelled "
+            "anywhere. It is only SEARCHED by the Ownership oracle (impl/t_own.c, ASan + LSan also in the quick tier): random and "
+            "fixed sequences of data-tree API calls, failing ones included, over two contexts with fixed modules; after every call: "
+            "outputs NULL on failure, inputs that are not consumed and slots that are not arguments unchanged (canonical dump), "
+            "consumed inputs gone, sibling/parent links consistent, chains after free_single/_siblings exactly the expected rest; "
+            "at the end of a case: dictionary strings and references of each context back at the state after module loading, no "
+            "'not freed' warning at ly_ctx_destroy, no 'was not found in the dictionary' error, no block left (allocation tracker), "
+            "no LSan report. Fixed catalogue (oracle-level only): temporaries (lyd_value_validate with/without context node for "
+            "every type family - valid, invalid when stored, invalid when resolved -, lyd_value_compare, lyd_change_term/_canon/"
+            "_bin, lyd_dup_meta_single, lyd_any_value_str, lyd_any_copy_value), merge / diff callbacks failing at every position, "
+            "chains of 1..4 metadata / attributes / siblings freed at every position, per-type dup/free balance for every type "
+            "plugin that owns memory (both free orders, other context, diff/merge/anydata paths), update-style calls with the "
+            "same / another value / on missing nodes, unions re-resolved at validation time incl. LYB round trips. Call shapes the "
+            "API documents as the caller's duty (or does not check: see the SKIP comments of the driver) are not exercised. One "
+            "listed known finding: merge-destruct-einval-source-not-consumed (API-contract question); the other findings of this "
+            "check are fixed in /repo (known_findings.d/ht.json with commit ids) and their reproducers stay as regression cases. "
+            "A leak on a path the generators do not reach stays unseen. Allocation failure, threads and strings with embedded NUL "
+            "are outside everything.",
     "technique": "Coq refinement proof (arena-style model -> per-bucket lists -> finite map) + differential correspondence "
                  "(extracted OCaml vs C, white-box state dump) + sanitizer-backed API-sequence search",
 }
